@@ -48,16 +48,21 @@ def raw_to_logical(raw_color):
     b = 100.0 if raw_value >= 65535.0 else float(raw_value) / 65535.0 * 100.0
     return [max(h, 0.0), max(s, 0.0), max(b, 0.0), max(raw_color[3], 0.0)]
 
+def _rgb_fraction(pct):
+    # colorsys divides by the largest component: a negative percentage next
+    # to two zeros would otherwise be a division by zero.
+    return min(max(pct, 0.0), 100.0) / 100.0
+
 @noneable
 def rgb_to_raw(rgb_color):
-    r, g, b = [rgb_color[i] / 100.0 for i in range(0, 3)]
+    r, g, b = [_rgb_fraction(rgb_color[i]) for i in range(0, 3)]
     h, s, v = colorsys.rgb_to_hsv(r, g, b)
     make_raw = lambda x: round(max(0, min((x * 65535.0), 65535)))
     return [make_raw(h), make_raw(s), make_raw(v), rgb_color[3]]
 
 @noneable
 def rgb_to_logical(rgb_color):
-    r, g, b = [rgb_color[i] / 100.0 for i in range(0, 3)]
+    r, g, b = [_rgb_fraction(rgb_color[i]) for i in range(0, 3)]
     h, s, v = colorsys.rgb_to_hsv(r, g, b)
     return [h * 360.0, s * 100.0, v * 100.0, rgb_color[3]]
 
